@@ -277,6 +277,26 @@ def r3_future_handler_conditioned(ctx):
                     ctx.ob("C13.R3", f"{FUTURES}::Future.deref::except {P.un(h.type) if h.type else ''}::{P.un(r)}", FUTURES, r.lineno, ok,
                            "" if ok else "the handler returns the timeout value whether or not the future is done: a TimeoutError raised by the body is swallowed",
                            witness="@(future (throw (python/TimeoutError \"t\"))) => nil")
+    # the other half: when the future IS done, the handler must deliver the body's outcome
+    # (self._future.result() -- its value, or the body's own exception); re-raising the caught
+    # timeout reports a timeout the body never raised when the body finished between the wait
+    # giving up and the done() test
+    for t in ast.walk(d):
+        if not isinstance(t, ast.Try):
+            continue
+        for h in t.handlers:
+            tests = [nd for nd in g.nodes if nd.kind == "test" and P.un(nd.ast).endswith(".done()") and P.contains(h, nd.ast)]
+            for tn in tests:
+                done_succ = [m for m, lab in tn.succ if lab is True]
+                reach = g.reach(done_succ, follow_exc=False)
+                outs = [g.nodes[i] for i in reach if g.nodes[i].kind == "stmt" and isinstance(g.nodes[i].ast, (ast.Return, ast.Raise)) and P.contains(h, g.nodes[i].ast)]
+                # only the exits reachable without passing the not-done edge again
+                bad = [o for o in outs if not any(isinstance(c.func, ast.Attribute) and c.func.attr == "result" for c in P.calls(o.ast))
+                       and g.edge_dominated(o, lambda a, b, lab, tn=tn: a is tn and lab is True)]
+                n += 1
+                ctx.ob("C13.R3", f"{FUTURES}::Future.deref::except {P.un(h.type) if h.type else ''}::a done future yields its body's outcome", FUTURES, tn.line, not bad,
+                       "" if not bad else f"when the future is done the handler leaves with `{P.un(bad[0].ast)}` instead of the future's own result: a body that finished just after the wait gave up is reported as timed out",
+                       witness="a timed deref whose wait expires in the instant the body completes")
     if n == 0:
         # no swallowing handler at all: record the fact as one discharged obligation
         ctx.ob("C13.R3", f"{FUTURES}::Future.deref::no-returning-handler", FUTURES, d.lineno, True, "no handler returns a substitute value")
